@@ -87,7 +87,7 @@ pub fn from_string_inner(ast: &DeriveInput) -> syn::Result<TokenStream> {
             Fields::Unit => quote! {},
             Fields::Unnamed(fields) => {
                 if let Some(ref value) = variant_properties.default_with {
-                    let func = proc_macro2::Ident::new(&value.value(), value.span());
+                    let func = value.parse::<proc_macro2::Ident>()?;
                     let defaults = vec![quote! { #func() }];
                     quote! { (#(#defaults),*) }
                 } else {
@@ -103,8 +103,7 @@ pub fn from_string_inner(ast: &DeriveInput) -> syn::Result<TokenStream> {
                     let field = field.ident.as_ref().unwrap();
 
                     if let Some(default_with) = meta.default_with {
-                        let func =
-                            proc_macro2::Ident::new(&default_with.value(), default_with.span());
+                        let func = default_with.parse::<proc_macro2::Ident>()?;
                         defaults.push(quote! {
                             #field: #func()
                         });
